@@ -101,6 +101,15 @@ func (s *regSys) Enabled() []Op {
 			ops = append(ops, Op{K: "Commit", H: h}, Op{K: "Commit", H: h, Bad: "digest"}, Op{K: "Cancel", H: h})
 		case "failed":
 			ops = append(ops, Op{K: "Commit", H: h}, Op{K: "Cancel", H: h})
+		case "committed", "cancelled":
+			// reuse of a finished session's ID: whatever the registry answers (the statement is silent),
+			// content committed earlier must stay intact (checked by the sweep)
+			if s.cfg.FinishedOps && len(up.Buf) < s.cfg.MaxUpload+2 {
+				ops = append(ops, Op{K: "Resume", H: h, Off: "zero"}, Op{K: "Resume", H: h, Off: "-1"}, Op{K: "Write", H: h, Piece: "ZZ"})
+				if up.State == "committed" {
+					ops = append(ops, Op{K: "Cancel", H: h})
+				}
+			}
 		}
 	}
 	return ops
@@ -249,7 +258,20 @@ func (s *regSys) Apply(op Op, check bool) (tainted bool) {
 		}
 	}
 	if s.r.Guard(sub, fpBase+"/sweep", s.caseOf(nil), func() {
+		queries := s.queries
+		// content committed through upload sessions is not part of the fixed universe: query it too
+		known := map[string]bool{}
 		for _, q := range s.queries {
+			known[q.Repo+"|"+q.Dig] = true
+		}
+		for name, mr := range s.model.Repos {
+			for d := range mr.Blobs {
+				if !known[name+"|"+string(d)] {
+					queries = append(append([]Query(nil), queries...), Query{K: "GetBlob", Repo: name, Dig: string(d), What: "uploaded"}, Query{K: "ResolveBlob", Repo: name, Dig: string(d), What: "uploaded"})
+				}
+			}
+		}
+		for _, q := range queries {
 			obs := runQuery(s.ctx, s.reg, q)
 			if mism := s.model.CheckObs(s.u, obs); mism != "" {
 				s.r.Violate(sub, fmt.Sprintf("%s/%s/after-%s/%s/%s", s.prop, s.mode, op.K, q.K, fpClass(mism)), s.caseOf(nil),
@@ -292,7 +314,7 @@ func (s *regSys) Key() string {
 
 func c02Alphabet(u *universe, tier string, chunked bool) alphabetConfig {
 	c := alphabetConfig{Repos: u.Repos, BadRepo: true, Chunked: chunked, MaxUploads: 1, MaxUpload: 3,
-		Manifests: []int{0, 1, 2, 3, 4, 5, 6, 7, 8}, Blobs: []int{0, 1, 2}, Deletes: true, Mounts: true, BadPushes: true, UntaggedToo: true}
+		Manifests: []int{0, 1, 2, 3, 4, 5, 6, 7, 8}, Blobs: []int{0, 1, 2}, Deletes: true, Mounts: true, BadPushes: true, UntaggedToo: true, FinishedOps: true}
 	return c
 }
 
@@ -319,6 +341,9 @@ func c02Seeds() [][]Op {
 		{{K: "PushBlob", Repo: "r", B: 1}, {K: "PushBlob", Repo: "s", B: 2}, {K: "Start", Repo: "r"}, {K: "Write", H: 0, Piece: "a"}},
 		// a tag moved once
 		{{K: "PushManifest", Repo: "s", M: 0, Tag: "t"}, {K: "PushBlob", Repo: "s", B: 1}, {K: "PushBlob", Repo: "s", B: 2}, {K: "PushManifest", Repo: "s", M: 1, Tag: "t"}},
+		// a committed chunked upload (its ID may be reused) next to other content
+		{{K: "PushBlob", Repo: "r", B: 1}, {K: "Start", Repo: "r"}, {K: "Write", H: 0, Piece: "bc"}, {K: "Commit", H: 0}},
+		{{K: "Start", Repo: "r"}, {K: "Write", H: 0, Piece: "a"}, {K: "Commit", H: 0}, {K: "Cancel", H: 0}},
 		// same bytes under two media types
 		{{K: "PushBlob", Repo: "r", B: 1}, {K: "PushBlob", Repo: "r", B: 2}, {K: "PushManifest", Repo: "r", M: 1, Tag: "t"}, {K: "PushManifest", Repo: "r", M: 8}},
 	}
